@@ -328,7 +328,20 @@ func subtreesBeforeSharedC15(run *report.Run, acc *pairAcc, bf uint, n int) {
 	adjacentC15With(run, acc, bf, n, []uint{u, u + 1, u + bf*bf, 2 * u, 2*u + bf, 3 * u}, "one-sided-subtrees-in-front-of-a-shared-subtree", "one-sided entries and one-sided subtrees between them in front of a tall common subtree: all subsets of six extra keys against each other")
 }
 
-func adjacentC15With(run *report.Run, acc *pairAcc, bf uint, n int, extras []uint, label, part string) {
+// chainC15: a chain of pass-through nodes both versions share, below nodes only one of them has. Common keys
+// 1, 3, 5 (a leaf), 257..511 and 256 at branch factor 2: height 8, key 256 alone in the top node, its left child a
+// chain of seven pass-through nodes down to the leaf. The extra keys 2, 4, 8, ... 128 (layers 1..7, one per level of
+// the chain) each put a keyed node into the chain; every subset of them against every other. What lies below the
+// lowest node that differs is shared, pass-through nodes included.
+func chainC15(run *report.Run, acc *pairAcc) {
+	common := []uint{1, 3, 5, 256}
+	for k := uint(257); k <= 511; k++ {
+		common = append(common, k)
+	}
+	adjacentC15With(run, acc, 2, 0, []uint{2, 4, 8, 16, 32, 64, 128}, "keyed-nodes-in-a-shared-pass-through-chain", "a chain of pass-through nodes both versions share below nodes only one has: all subsets of seven keys of layers 1..7 against each other", common...)
+}
+
+func adjacentC15With(run *report.Run, acc *pairAcc, bf uint, n int, extras []uint, label, part string, common ...uint) {
 	u := uint(1)
 	for i := 0; i < 12; i++ {
 		u *= bf
@@ -340,6 +353,9 @@ func adjacentC15With(run *report.Run, acc *pairAcc, bf uint, n int, extras []uin
 	}
 	for i := 1; i <= n; i++ {
 		keys = append(keys, B+uint(i))
+	}
+	for _, c := range common {
+		keys = append(keys, c)
 	}
 	cfg := world.UintCfg(bf, keys, 1, ref.FormatBinary, "none")
 	cfg.Name = fmt.Sprintf("%s/uint %d+1..%d+%d and %v/bf%d", label, B, B, n, extras, bf)
